@@ -2,6 +2,7 @@
 import re
 
 from . import analysis as A
+from . import deep as D
 from . import roles
 from . import c08
 from . import writers as W
@@ -71,6 +72,59 @@ def ctor_refs(F, name):
             if re.match(r"^<?runner::", F.root_fn(s.body).name) or F.root_fn(s.body).name.startswith("event::")]
 
 
+def _same_modulo_conv(a, b):
+    """Equal terms up to Clone / conversions of their leaves (`feature.clone()` vs `feature`)."""
+    def strip(t):
+        if isinstance(t, tuple) and t:
+            if t[0] in ("conv", "refto") and len(t) == 2:
+                return strip(t[1])
+            if t[0] == "deref" and len(t) == 2 and isinstance(t[1], tuple) and t[1] and t[1][0] == "ref":
+                return ("place", t[1][1])
+            return tuple(strip(x) for x in t)
+        return t
+    return strip(a) == strip(b)
+
+
+def _finished_table_ok(F, fb, kind, bparam):
+    tab = D.Deep(F, fb, max_paths=200, opaque=r"count_scenarios$").run()
+    if not tab or any(p.cut for p in tab):
+        return "path table is empty or has a loop"
+    some_paths = 0
+    for p in tab:
+        retried = [out for a, out in p.conds if a == ("arg", bparam)]
+        ret_some = D.is_variant(p.ret, "std::option::Option", "Some")
+        ret_none = D.is_variant(p.ret, "std::option::Option", "None")
+        if not (ret_some or ret_none):
+            return f"a path returns {D.fmt(fb, p.ret)[:80]}"
+        incs = [e for e in p.effects if e[0] == "write" and e[2][0] == "bin" and e[2][1] == "Add" and e[2][3] == ("const", 1)]
+        removes = [e for e in p.effects if e[0] == "call" and re.search(r"HashMap(::<.*>)?::remove$", e[1])]
+        if retried and retried[0] is True:
+            if ret_some or incs or removes:
+                return "a retried attempt is counted"
+            continue
+        if len(incs) != 1:
+            return f"{len(incs)} counter increments on a non-retried path"
+        newv = incs[0][2]
+        total_rx = r"count_scenarios$" if kind == "feature" else r"Vec(::<.*>)?::len$"
+        eqs = [(a, out) for a, out in p.conds if a[0] == "bin" and a[1] == "Eq" and
+               ((a[2] == newv and a[3][0] == "call" and re.search(total_rx, a[3][1])) or (a[3] == newv and a[2][0] == "call" and re.search(total_rx, a[2][1])))]
+        if len(eqs) != 1:
+            return "no comparison of the incremented counter with the scenario count on a non-retried path"
+        done = eqs[0][1] is True
+        if done != ret_some:
+            return "Finished returned when counts differ / not returned when they are equal"
+        if ret_some:
+            some_paths += 1
+            want = "event::Rule" if kind == "rule" else "event::Feature"
+            if not D.mentions(p.ret, lambda x: D.is_variant(x, want, "Finished")):
+                return f"the returned event is not {want}::Finished"
+            if not removes:
+                return "the key is not removed when the bracket finishes"
+        elif removes:
+            return "the key is removed although the bracket is not finished"
+    return True if some_paths >= 1 else "no path returns Finished"
+
+
 def r3(F, R):
     ex = roles.execute(F)
     # START := callee of EXECUTE in the bookkeeping type whose result is sent before the pushes
@@ -94,17 +148,28 @@ def r3(F, R):
     # vacant-entry rule: the vectors mapped with *_started are pushed only inside or_insert_with closures
     pushes = [(nb, s, t) for nb in nested for s, t in nb.calls(lambda t: callee_is(t, r"Vec::<.*>::push$"))]
     R.check(len(pushes) == 2, "started-vectors/push-sites", start_fn, "", f"{len(pushes)} push sites in the start bookkeeping")
-    for nb, s, t in pushes:
-        ok = False
-        if nb.kind == "Closure":
-            cc = A.closure_creation(F, nb)
-            if cc:
-                P, cs, st = cc
-                uses, _ = A.forward_uses(P, st["pl"]["l"])
-                ok = len(uses) == 1 and callee_is(uses[0][1], r"Entry::<.*>::or_insert_with$", r"or_insert_with$")
-        elem = nb.locals[op_local(t["args"][1])] if op_local(t["args"][1]) is not None else ""
-        kind = "rule" if "gherkin::Rule" in elem else "feature"
-        R.check(ok, f"started-only-if-absent/{kind}", s, "pushed only inside entry(..).or_insert_with(|| ..)",
+    # decided on the path table of the start bookkeeping (deep.py): a push happens only on a path that found the
+    # key's entry vacant and inserts it — `entry(k).or_insert_with(|| { push; 0 })` and `if let Entry::Vacant(v) = entry(k)
+    # { v.insert(0); push }` are the same table
+    tab = D.Deep(F, start_fn, max_paths=400).run()
+    seen_kinds = {}
+    for p in tab:
+        for i, e in enumerate(p.effects):
+            if e[0] != "call" or not re.search(r"Vec(::<.*>)?::push$", e[1]):
+                continue
+            kind = "rule" if e[2][1][0] == "tuple" else "feature"
+            vac = [a[1] for a, out in p.conds if a[0] == "discr" and out == "Vacant" and a[1][0] == "call" and re.search(r"HashMap(::<.*>)?::entry$", a[1][1])]
+            ok = False
+            for ent in vac:
+                same_key = ent[2][1] == e[2][1] or D.mentions(ent[2][1], lambda x: x == e[2][1]) or D.mentions(e[2][1], lambda x: x == ent[2][1]) or \
+                    _same_modulo_conv(ent[2][1], e[2][1])
+                inserted = any(e2[0] == "call" and re.search(r"(Entry::insert|VacantEntry(::<.*>)?::insert(_entry)?)$", e2[1]) and D.mentions(e2[2], lambda x: x == ent or x == ("field", ("as", ent, "Vacant"), 0))
+                               for e2 in p.effects)
+                if same_key and inserted:
+                    ok = True
+            seen_kinds[kind] = seen_kinds.get(kind, True) and ok
+    for kind in ("feature", "rule"):
+        R.check(seen_kinds.get(kind) is True, f"started-only-if-absent/{kind}", start_fn, "recorded as started only when its entry was vacant (and is inserted)",
                 f"a {kind} is recorded as started outside a vacant-entry closure: its Started event can be emitted twice (or for a running bracket)")
     # features before rules
     chains = [(s, t) for s, t in start_fn.calls(lambda t: callee_is(t, r"Iterator::chain$"))]
@@ -142,25 +207,12 @@ def r3(F, R):
             ok = ok and g_ok
         R.check(ok, f"retried-does-not-count/{kind}", fb, "if is_retried { return None } before touching the map",
                 f"a retried attempt is counted as a finished scenario of its {kind} (the bracket closes too early)")
-        # Finished is built only inside bool::then(count == finished) after += 1, key removed first
-        thens = [(s2, t2) for s2, t2 in fb.calls(lambda t2: callee_is(t2, r"bool>::then$", r"bool::<impl bool>::then$", r"::then$") and fb.locals[op_local(t2["args"][0])] == "bool")]
-        okt = False
-        if len(thens) == 1:
-            s2, t2 = thens[0]
-            kb = A.closure_of_operand(F, fb, t2["args"][1])
-            csl = A.slice_back(fb, [t2["args"][0]])
-            eqs = [rv for _, rv in csl.bins if rv["op"] == "Eq"]
-            incs = [(s3, rv) for s3, rv in csl.bins if rv["op"] in ("AddWithOverflow", "Add") and const_int(rv["b"]) == 1]
-            size = csl.has_call(r"count_scenarios$") if kind == "feature" else (csl.has_call(r"Vec::<.*>::len$") and ("gherkin::Rule", "scenarios") in csl.fields)
-            builds = kb is not None and bool(_refs_in(F, kb, f"{kind}_finished"))
-            removes = kb is not None and any(callee_is(t3, r"HashMap::<.*>::remove$") for _, t3 in kb.calls())
-            okt = len(eqs) == 1 and len(incs) == 1 and size and builds and removes
-            if okt and kb is not None:
-                rm = [s3 for s3, t3 in kb.calls(lambda t3: callee_is(t3, r"HashMap::<.*>::remove$"))][0]
-                bd = [s3 for s3, _, _ in _refs_in(F, kb, f"{kind}_finished")][0]
-                okt = kb.dominates(rm, bd)
-        R.check(okt, f"finished-iff-all-scenarios-done/{kind}", fb, "(total == finished + 1).then(|| { remove; Finished })",
-                f"{kind.capitalize()}::Finished is not emitted exactly when the incremented counter equals the {kind}'s scenario count (after removing the key)")
+        # Finished is returned exactly when the incremented counter equals the bracket's scenario count, after the key
+        # was removed — on the function's path table (spelling-independent)
+        okt = _finished_table_ok(F, fb, kind, bparam)
+        R.check(okt is True, f"finished-iff-all-scenarios-done/{kind}", fb, "(total == finished + 1).then(|| { remove; Finished })",
+                f"{kind.capitalize()}::Finished is not emitted exactly when the incremented counter equals the {kind}'s scenario count (after removing the key)" +
+                (f": {okt}" if okt is not True else ""))
     if len(fins) == 2:
         rule_c = [s for s, t, fb in fins if any("gherkin::Rule" in ty for ty in fb.locals[1:fb.arg_count + 1])]
         feat_c = [s for s, t, fb in fins if s not in rule_c]
